@@ -226,8 +226,13 @@ clone_evmux(echs_const_evstrm_t s)
 		if (UNLIKELY((stmp = this->s[i]) == NULL)) {
 			;
 		} else if (UNLIKELY((stmp = clone_echs_evstrm(stmp)) == NULL)) {
-			/* a stream that has ended has no clone */
-			res->ev[i] = (echs_event_t){0U};
+			/* a stream that has ended has no clone, unless
+			 * the cache is yet to be filled (the mark for that
+			 * is in the first slot) note that there's nothing
+			 * to come from there */
+			if (!echs_max_instant_p(res->ev[0U].from)) {
+				res->ev[i] = (echs_event_t){0U};
+			}
 		}
 		res->s[i] = stmp;
 	}
